@@ -105,7 +105,8 @@ type Call struct {
 	Req        *proto.SSHCertificateSigningRequest
 	TLSVersion uint16
 	PeerCerts  [][]byte
-	CtxErr     error // context error observed when the handler returned
+	CtxErr     error     // context error observed when the handler returned
+	At         time.Time // when the request arrived
 }
 
 // Handshake is one completed TLS handshake.
@@ -133,7 +134,7 @@ type Server struct {
 }
 
 func (s *Server) PostUserSSHCertificate(ctx context.Context, req *proto.SSHCertificateSigningRequest) (*proto.SSHKey, error) {
-	c := Call{Req: req}
+	c := Call{Req: req, At: time.Now()}
 	if p, ok := peer.FromContext(ctx); ok {
 		if ti, ok := p.AuthInfo.(credentials.TLSInfo); ok {
 			c.TLSVersion = ti.State.Version
